@@ -9,7 +9,7 @@ from . import cfg
 
 VERIF = F.VERIF
 EVID = os.environ.get("AMVERIF_EVID") or os.path.join(VERIF, "evidence")
-KNOWN = os.path.join(VERIF, "known_findings.jsonl")
+KNOWN = os.path.join(VERIF, "known_findings.txt")
 TABLES = os.path.join(VERIF, "tables")
 
 TRUSTED = [
@@ -90,12 +90,17 @@ class Ctx:
 
 
 def load_known():
+    """lines `finding: property=<id> key=<key> :: <what>`; `fixed:` lines suppress nothing"""
     out = []
     if os.path.exists(KNOWN):
         for line in open(KNOWN):
             line = line.strip()
-            if line and not line.startswith("#"):
-                out.append(json.loads(line))
+            if line.startswith("finding:"):
+                rest = line[len("finding:"):].strip()
+                prop, rest = rest.split(" ", 1)
+                key, _, what = rest.partition(" :: ")
+                assert prop.startswith("property=") and key.startswith("key="), line
+                out.append({"status": "finding", "property": prop[len("property="):], "key": key[len("key="):], "what": what})
     return out
 
 
